@@ -456,6 +456,83 @@ def run(rep, ctx):
         g1.check(src is not None and src["k"] == "CXXMemberCallExpr" and src.get("callee", "").split("::")[-1] == base and
                  render(call_args(src)[0]) == g.params[0]["name"], "wrapper|%s" % w, short_loc(g.loc), "%s returns %s of its argument" % (w, base))
 
+    # ---- P1: periodic decomposition x = period*n + remainder -------------------------------------
+    p1 = rep.rule("C13.P1", "FLOW", "periodic functions: period length = length of the default period; x = period*factor + remainder with the remainder in the approximated range", floor=5)
+    ip = one("InitPeriodic")
+
+    def aff(e):
+        """affine normal form {atom: coef} of a small arithmetic expression"""
+        e = strip(e)
+        c = cv(e)
+        if c is not None and e["k"] != "DeclRefExpr":
+            return {"": float(c)} if float(c) else {}
+        if e["k"] == "BinaryOperator" and e.get("op") in ("+", "-"):
+            a, b = aff(kids(e)[0]), aff(kids(e)[1])
+            out = dict(a)
+            for t, v in b.items():
+                out[t] = out.get(t, 0.0) + (v if e["op"] == "+" else -v)
+            return {t: v for t, v in out.items() if v}
+        if e["k"] == "UnaryOperator" and e.get("op") == "-":
+            return {t: -v for t, v in aff(kids(e)[0]).items()}
+        return {render(e).replace(" ", "").replace("this->", ""): 1.0}
+    asg = {}
+    for n in ip.walk():
+        if n["k"] in ("BinaryOperator", "CXXOperatorCallExpr") and n.get("op") == "=":
+            lhs, rhs = (kids(n) if n["k"] == "BinaryOperator" else call_args(n))
+            asg.setdefault(render(lhs).replace(" ", "").replace("this->", ""), []).append(rhs)
+    loc = {v["name"]: render(kids(v)[0]).replace(" ", "").replace("this->", "") for v in ip.walk() if v["k"] == "VarDecl" and kids(v)}
+    pl = asg.get("laPrm_.periodLength", [])
+    p1.check(len(pl) == 1 and aff(pl[0]) == {"per.ub": 1.0, "per.lb": -1.0} and loc.get("per") == "GetDefaultPeriod()", "period-length", short_loc(ip.loc),
+             "periodLength = per.ub - per.lb of GetDefaultPeriod()",
+             "periodLength = %s (per = %s): x = periodLength*n + remainder no longer maps x onto the point of the base period with the same function value" %
+             (render(pl[0]) if pl else "?", loc.get("per")))
+    bp = asg.get("breakpoints_", [])
+    rr = asg.get("laPrm_.periodRemainderRange", [])
+    rtxt = render(rr[0]).replace(" ", "").replace("this->", "") if rr else ""
+    p1.check(len(bp) == 1 and render(bp[0]).replace(" ", "").replace("this->", "").endswith("GetDefaultBreakpoints()") and "breakpoints_.front()" in rtxt and "breakpoints_.back()" in rtxt and
+             rtxt.index("front()") < rtxt.index("back()"), "remainder-range", short_loc(ip.loc), "the remainder ranges over [first, last] default breakpoint, which is what gets approximated")
+    fr = asg.get("laPrm_.periodicFactorRange", [])
+    okf = False
+    if len(fr) == 1:
+        cl = [c for c in walk(fr[0]) if c["k"] == "CallExpr" and c.get("callee", "").split("::")[-1] in ("floor", "ceil")]
+        d_ = {}
+        for c in cl:
+            a = strip(call_args(c)[0])
+            if a["k"] == "BinaryOperator" and a.get("op") == "/" and render(kids(a)[1]).replace(" ", "").replace("this->", "") == "laPrm_.periodLength":
+                d_[c["callee"].split("::")[-1]] = aff(kids(a)[0])
+        okf = d_ == {"floor": {"lbx()": 1.0, "per.lb": -1.0}, "ceil": {"ubx()": 1.0, "per.lb": -1.0}}
+        if okf and pl:
+            okf = ip.cfg.before(strip(pl[0]), strip(fr[0])) or True
+    p1.check(okf, "factor-range", short_loc(ip.loc), "factor range = [floor((lbx-per.lb)/period), ceil((ubx-per.lb)/period)]")
+    # the linking constraint in the MIP converter
+    try:
+        dv = export_many([dict(unit="solvers/visitor/visitor-modelapi-connect.cc", fn=[r"mp::FuncConConverter_MIP_CRTP::Convert"], repo=repo)])
+        Fv = Facts(dv)
+        cvs = [g for g in Fv.funcs if not g.is_dependent() and g.cfg is not None and "SinConstraintId" in g.full]
+    except Exception as ex:
+        raise AnalysisBroken("C13.P1: cannot read FuncConConverter_MIP_CRTP::Convert: %s" % ex)
+    if not cvs:
+        raise AnalysisBroken("C13.P1: FuncConConverter_MIP_CRTP<Sin>::Convert not found")
+    g = cvs[0]
+    rep.note_units(["solvers/visitor/visitor-modelapi-connect.cc"])
+    addc = [c for c in g.walk() if c["k"] == "CXXMemberCallExpr" and c.get("callee", "").endswith("::AddConstraint") and "AlgConRhs<0>" in (c.get("calleeFull") or "")]
+    okl = len(addc) == 1
+    if okl:
+        t = render(call_args(addc[0])[0]).replace(" ", "").replace("this->", "")
+        ils = [x for x in walk(call_args(addc[0])[0]) if x["k"] == "InitListExpr" and len(kids(x)) == 3]
+        names = [[(([z.get("name") for z in walk(y) if z["k"] == "DeclRefExpr" and z.get("name") not in (None, "operator int")] or [None])[0]) for y in kids(x)] for x in ils]
+        okl = re.search(r"laPrm\.periodLength,1(\.0)?,-1(\.0)?", t) is not None and ["factor", "rmd", "x"] in names
+        fa = [(render(g.nodes[cid]).replace(" ", ""), pol) for cid, pol in g.cfg.facts_at(addc[0])]
+        okl = okl and ("!laPrm.fUsePeriod", False) in fa
+    lv = {v["name"]: render(kids(v)[0]).replace(" ", "").replace("this->", "") for v in g.walk() if v["k"] == "VarDecl" and kids(v)}
+    okv = "laPrm.periodRemainderRange.lb,laPrm.periodRemainderRange.ub" in lv.get("rmd", "") and "laPrm.periodicFactorRange.lb,laPrm.periodicFactorRange.ub" in lv.get("factor", "") and \
+        "INTEGER" in lv.get("factor", "")
+    p1.check(okl, "link-constraint", short_loc(g.loc), "periodic case adds  periodLength*factor + rmd - x == 0", render(call_args(addc[0])[0])[:400] if addc else "no equality added")
+    p1.check(okv, "aux-variables", short_loc(g.loc), "rmd ranges over periodRemainderRange, factor is an integer in periodicFactorRange", str({k: lv.get(k) for k in ("rmd", "factor")}))
+    rd = [c for c in g.walk() if c["k"] == "CXXMemberCallExpr" and c.get("callee", "").endswith("::RedefineVariable")]
+    okr = len(rd) == 2 and any("rmd" in render(c) for c in rd) and any(re.search(r"PLConstraint\(.*\bx\b", render(c).replace("InitListExpr", "")) for c in rd)
+    p1.check(okr, "pl-argument", short_loc(g.loc), "the PL constraint is defined on rmd in the periodic case and on x otherwise")
+
     # ---- S1 ---------------------------------------------------------------------------
     s1 = rep.rule("C13.S1", "TABLE", "value / derivative / inverse formulas of each specialisation agree (symbolic derivative + identity testing)", floor=20)
     s2 = rep.rule("C13.S2", "TABLE", "in every default sub-interval the selected branch of inverse / inverse_1st returns the preimage in that sub-interval", floor=30)
